@@ -15,6 +15,7 @@ package main
 
 import (
 	"bytes"
+	"compress/gzip"
 	"context"
 	"encoding/base64"
 	"encoding/hex"
@@ -33,6 +34,7 @@ import (
 	"time"
 
 	"github.com/Query-farm/vgi-rpc-go/vgirpc"
+	"github.com/klauspost/compress/zstd"
 
 	"verif/harness/internal/mon"
 )
@@ -241,7 +243,7 @@ func jsonBody(cred string) []byte {
 
 var credClasses = []string{
 	"opaque-ok", "opaque-ok-default-ttl", "opaque-notfound", "opaque-error", "opaque-unavailable",
-	"opaque-with-dots-2seg", "opaque-4seg", "opaque-special-chars", "opaque-unicode", "len-4096",
+	"opaque-with-dots-2seg", "opaque-4seg", "opaque-special-chars", "opaque-unicode", "opaque-invalid-utf8", "len-4096",
 	"jws-3seg", "jws-realistic", "jws-empty-signature", "jws-single-char-segments", "jws-long", "jws-dash-underscore",
 	"gray-detached-payload", "gray-padded-jws", "gray-leading-space-jws", "gray-trailing-newline-jws", "gray-empty-header-jws", "gray-multibyte-6000-bytes",
 	"oversize-4097", "oversize-5000", "oversize-8000", "oversize-jws",
@@ -273,6 +275,10 @@ func makeCred(class string, rng *rand.Rand) credSpec {
 		c.cred, c.expect404 = m+"\"\\ <>&'\t%2F+/=", true
 	case "opaque-unicode":
 		c.cred, c.expect404 = m+"-ключ-鍵-🔑", true
+	case "opaque-invalid-utf8":
+		// raw invalid UTF-8 inside the JSON string (encoding/json hands the resolver U+FFFD instead)
+		c.cred, c.expect404 = m, true
+		c.body = []byte(`{"token":"` + m + "\xff\xfe\xc0" + `"}`)
 	case "len-4096":
 		c.cred, c.expect404 = m+rstr(rng, b64url+"~!*", 4096-len(m)), true
 	case "jws-3seg":
@@ -497,6 +503,16 @@ func do(s *server, c caller, cs credSpec, rng *rand.Rand) obs {
 	for k, v := range c.headers {
 		req.Header.Set(k, v)
 	}
+	// domain audit: callers that negotiate response compression (the leak and
+	// fixed-body predicates must hold for what such a caller decodes)
+	switch rng.IntN(12) {
+	case 0:
+		req.Header.Set("Accept-Encoding", "gzip")
+	case 1:
+		req.Header.Set("Accept-Encoding", "zstd, gzip")
+	case 2:
+		req.Header.Set("X-VGI-Accept-Encoding", "zstd")
+	}
 	lm, rm := logMark(), s.resolver.mark()
 	rec := httptest.NewRecorder()
 	s.h.ServeHTTP(rec, req)
@@ -509,7 +525,29 @@ func do(s *server, c caller, cs credSpec, rng *rand.Rand) obs {
 	for _, k := range keys {
 		fmt.Fprintf(&hb, "%s: %s\n", k, strings.Join(rec.Header()[k], ", "))
 	}
-	o := obs{Status: rec.Code, Body: rec.Body.String(), Header: hb.String(), BytesRead: cb.bytes.Load(), ReadCalls: cb.calls.Load(),
+	bodyText := rec.Body.String()
+	enc := rec.Header().Get("Content-Encoding")
+	if enc == "" {
+		enc = rec.Header().Get("X-VGI-Content-Encoding")
+	}
+	switch enc {
+	case "gzip":
+		if zr, err := gzip.NewReader(bytes.NewReader(rec.Body.Bytes())); err == nil {
+			if dec, err := io.ReadAll(zr); err == nil {
+				bodyText = string(dec)
+				encodedSeen.Add(1)
+			}
+		}
+	case "zstd":
+		if zr, err := zstd.NewReader(bytes.NewReader(rec.Body.Bytes())); err == nil {
+			if dec, err := io.ReadAll(zr); err == nil {
+				bodyText = string(dec)
+				encodedSeen.Add(1)
+			}
+			zr.Close()
+		}
+	}
+	o := obs{Status: rec.Code, Body: bodyText, Header: hb.String(), BytesRead: cb.bytes.Load(), ReadCalls: cb.calls.Load(),
 		Resolver: s.resolver.since(rm), Logs: logSince(lm), RetryAfter: rec.Header().Get("Retry-After")}
 	o.ResolverN = len(o.Resolver)
 	return o
@@ -541,6 +579,8 @@ func callerGroup(kind string) string {
 	}
 	return "authenticated-non-member"
 }
+
+var encodedSeen atomic.Int64
 
 type fixedBodies struct {
 	mu   sync.Mutex
@@ -799,6 +839,10 @@ func main() {
 			}
 			logTrim()
 		}
+	}
+	r.Set("responses_decoded_from_negotiated_compression", encodedSeen.Load())
+	if encodedSeen.Load() > 0 {
+		r.Class("response:negotiated-compression-decoded")
 	}
 	r.Set("fixed_bodies", map[string]any{"403": fixed.seen[403], "404": fixed.seen[404], "404_disabled": fixed404Disabled.seen[404]})
 
